@@ -14,6 +14,9 @@ class CallMixin:
 
     # ------------------------------------------------------------------ classes / fields
     def class_info(self, qual):
+        cs = REG.cls(qual)
+        if cs is not None and getattr(cs, 'real', qual) != qual:
+            qual = cs.real
         return self.index.classes.get(qual) or self.index.resolve_class(qual)
 
     def find_method_for(self, cls_qual, name):
@@ -292,8 +295,6 @@ class CallMixin:
                 return
             if n == 'sum' and len(e.args) == 1 and isinstance(e.args[0], (ast.GeneratorExp, ast.ListComp)):
                 raise OutOfSubset('sum over generator')
-            if n in REG.ufuncs:
-                self.ufuncs_used.add(n)
             if n in REG.predicates and n not in st.env:
                 params, body, _ = REG.predicates[n]
                 for vs, st1 in self.ev_list(e.args, st):
